@@ -320,6 +320,26 @@ func (i *interpreter) concreteKey(k value) value {
 	return k
 }
 
+// cloneAgg copies struct and array values (boxed as Go slices, hence shared
+// unless copied); every other kind of value is immutable or a reference.
+func cloneAgg(v value) value {
+	switch v := v.(type) {
+	case structure:
+		c := make(structure, len(v))
+		for k := range v {
+			c[k] = cloneAgg(v[k])
+		}
+		return c
+	case array:
+		c := make(array, len(v))
+		for k := range v {
+			c[k] = cloneAgg(v[k])
+		}
+		return c
+	}
+	return v
+}
+
 // lookup returns x[idx] where x is a map.
 func (i *interpreter) lookup(instr *ssa.Lookup, x, idx value) value {
 	switch x := x.(type) { // map or string
@@ -992,7 +1012,12 @@ func callBuiltin(caller *frame, callpos token.Pos, fn *ssa.Builtin, args []value
 		if len(a1) == 0 {
 			return a0
 		}
-		return append(a0, a1...)
+		// element values are copied, not shared (struct and array values are
+		// reference-typed boxes in this interpreter)
+		for _, e := range a1 {
+			a0 = append(a0, cloneAgg(e))
+		}
+		return a0
 
 	case "copy": // copy([]T, []T) int or copy([]byte, string) int
 		src := args[1]
@@ -1000,7 +1025,16 @@ func callBuiltin(caller *frame, callpos token.Pos, fn *ssa.Builtin, args []value
 			params := fn.Type().(*types.Signature).Params()
 			src = caller.i.conv(params.At(0).Type(), params.At(1).Type(), src)
 		}
-		return copy(args[0].([]value), src.([]value))
+		dst, srcs := args[0].([]value), src.([]value)
+		n := len(dst)
+		if len(srcs) < n {
+			n = len(srcs)
+		}
+		tmp := make([]value, n)
+		for k := 0; k < n; k++ {
+			tmp[k] = cloneAgg(srcs[k])
+		}
+		return copy(dst, tmp)
 
 	case "close": // close(chan T)
 		close(args[0].(chan value))
